@@ -1200,3 +1200,39 @@ T("c09-twin-sweep-add-after-start-soon", "C09", "_concurrent.py", "the handle is
 # =============================================================================== F9 (C08)
 M("c08-f9-inverse", "C08", "_utils.py", "C08.R2", "callable_name() reads __qualname__ of callable objects again (pre-fix F9): the finalizer raises before it stopped the task",
   ("    if not hasattr(func, \"__qualname__\"):\n        func = type(func)\n\n", ""), control=False)
+
+
+# =============================================================================== broken variants of accepted module-level refactorings
+# (the pre-passes that made the refactorings silent must not hide a defect written in the same shape)
+M("c04-lookup-record-factory-first", "C04", "_context.py", ["C04.R5", "C04.R1", "C04.R3"], "the shared lookup helper (returns a `_ResourceLookup` record) asks the factory table before the resource table: a generated resource is generated again on every lookup",
+  ("        container = self._resources.get(key)\n        if container is not None:\n            return _ResourceLookup(container, None)\n\n        # Next, check if there's a resource factory for this type\n        if key in self._resource_factories:\n            return _ResourceLookup(None, self._resource_factories[key])\n",
+   "        if key in self._resource_factories:\n            return _ResourceLookup(None, self._resource_factories[key])\n\n        container = self._resources.get(key)\n        if container is not None:\n            return _ResourceLookup(container, None)\n"),
+  base="NN4-y2", control=False)
+M("c04-lookup-record-optional-inverted", "C02", "_context.py", ["C02.R3", "C04.R1", "C04.R3"], "the miss helper `_check_optional` raises for optional lookups and returns None for mandatory ones",
+  ("        if not optional:\n            raise ResourceNotFound(type, name)\n", "        if optional:\n            raise ResourceNotFound(type, name)\n"),
+  base="NN4-y2", control=False)
+M("c18-lookup-record-hit-by-value", "C18", "_context.py", "C18.R2", "the lookup helper treats an entry whose value is None as a miss",
+  ("        if container is not None:\n            return _ResourceLookup(container, None)\n", "        if container is not None and container.value is not None:\n            return _ResourceLookup(container, None)\n"),
+  base="NN4-y2", control=False)
+M("c03-key-list-wrong-table", "C03", "_context.py", "C03.R2", "add_resource looks for conflicts in the factory table (search helper over a pre-computed key list)",
+  ("        if (conflict := _first_registered(self._resources, keys)) is not None:", "        if (conflict := _first_registered(self._factories, keys)) is not None:"),
+  base="NN3-y3", control=False)
+M("c03-key-list-register-before-callback", "C03", "_context.py", "C03.R1", "the `_register` helper runs before the teardown callback is validated: a failing add leaves the resource behind",
+  ("        if teardown_callback is not None:\n            self.add_teardown_callback(teardown_callback)\n\n        container = ResourceContainer(\n            value=value, types=resource_types, name=name, description=description\n        )\n        _register(self._resources, keys, container)\n",
+   "        container = ResourceContainer(\n            value=value, types=resource_types, name=name, description=description\n        )\n        _register(self._resources, keys, container)\n        if teardown_callback is not None:\n            self.add_teardown_callback(teardown_callback)\n"),
+  base="NN3-y3", control=False)
+M("c08-service-record-no-wait", "C08", "_context.py", "C08.R2", "the `_ServiceTask.finalize` method no longer waits for the task",
+  ("        await self.handle.wait_finished()\n", "        pass\n"),
+  base="NN5-y2", control=False)
+M("c19-options-helper-always-optional", "C19", "_context.py", "C19.R1", "the shared `lookup_options` closure returns optional=True for every parameter",
+  ("        return {\"optional\": True} if dependency.optional else {}\n", "        return {\"optional\": True} if dependency.cls else {}\n"),
+  base="NN6-y3", control=False)
+M("c14-child-spec-default-name-lost", "C14", "_component.py", "C14.R4", "`_make_child_spec` returns the default resource name 'default' on both branches",
+  ("        return _ChildSpec(child_path, child_config, alias.split(\"/\", 1)[1])\n", "        return _ChildSpec(child_path, child_config, \"default\")\n"),
+  base="NN8-y2", control=False)
+M("c06-stream-helper-ignores-type", "C06", "_component.py", "C06.R3", "the extracted stream helper filters by name only",
+  ("            return event.resource_name == name and type in event.resource_types\n", "            return event.resource_name == name\n"),
+  base="NN7-y2", control=False)
+M("c06-stream-helper-bounded", "C06", "_component.py", ["C06.R2", "C06.R3", "C06.R7"], "the extracted stream helper uses the default (bounded) queue",
+  ("            is_match, max_queue_size=_UNBOUNDED_QUEUE_SIZE\n", "            is_match\n"),
+  base="NN7-y2", control=False)
